@@ -170,7 +170,7 @@ theorem C18_reachable (s : Sys) (l : List Step) (hb : s.bsei.WF) (hs : s.stsei.W
         have st := C18_stsei_step _ _ _ _ _ _ _ _ p2 hx'
         rw [b]; exact ⟨p1, st.2.1, p3, by rw [st.2.2.1]; exact p4, p5⟩
       | reward s1 sender funds rm _ _ _ _ hx' h b t d g => rw [b, t]; exact ⟨p1, p2, p3, p4, p5⟩
-      | disp env sender funds dm _ hx' h b t r g => rw [b, t]; exact ⟨p1, p2, p3, p4, p5⟩
+      | disp env sender funds dm _ _ _ hx' h b t r g => rw [b, t]; exact ⟨p1, p2, p3, p4, p5⟩
       | reg s1 sender funds rm _ h1 _ _ hx' h b t r d => rw [b, t]; exact ⟨p1, p2, p3, p4, p5⟩)
     (by
       intro x e hp
